@@ -52,6 +52,12 @@ def c03():
                 p.cases.append({"page": page, "codec": CODECS[(len(p.cases) + ck.seed) % 3], "poff": (ck.seed * 7 + len(rr) + 1) % 16,
                                 "ops": ops_of(hist, rr)})
         ck.add("evaluations", 5 * len(rr))
+        # pages whose level streams have 505..511 (and 1009..1015) entries: the last, padded group of a full 63-group run
+        if p.key.startswith("fixed:Flat") or p.key.startswith("fixed:BoolHeavy"):
+            cyc = rec_cycle(rr, ck.seed + 1)
+            for n in ((505, 508, 511) if q else (505, 506, 507, 508, 509, 510, 511, 1009, 1012, 1015)):
+                p.cases.append({"page": 2000, "codec": CODECS[n % 3], "poff": n % 16, "ops": ops_of("a" * n + "w", cyc)})
+                ck.add("evaluations", n)
     run_programs(ok, "c03")
     nontrivial = set()
     for p in ok:
@@ -720,6 +726,9 @@ def stable_toff(forest):
 
 
 TYPE_REUSE = {
+    # column names given by tags: with spaces, dots are not allowed by the format's path convention, other punctuation is
+    "TagNames": "package main\n\ntype Contact struct {\n\tAddress string  `parquet:\"home address\"`\n\tPhone   *string `parquet:\"cell phone\" json:\"phone,omitempty\"`\n}\n\n"
+                "type Rec struct {\n\tID       int64     `json:\"id\" parquet:\"id\"`\n\tContacts []Contact `parquet:\"contacts\"`\n\tNote     *string   `parquet:\"a-b c:d\"`\n}\n",
     "TwoPointers": "package main\n\ntype Addr struct {\n\tZip  int32\n\tCity *string\n}\n\ntype Rec struct {\n\tHome *Addr\n\tWork *Addr\n}\n",
     "TwoSlices": "package main\n\ntype Tag struct {\n\tID int32\n}\n\ntype Rec struct {\n\tTags []Tag\n\tAlt  []Tag\n}\n",
     "ValuePointerSlice": "package main\n\ntype Tag struct {\n\tID int32\n}\n\ntype Rec struct {\n\tFirst Tag\n\tOpt   *Tag\n\tMany  []Tag\n}\n",
@@ -1365,6 +1374,7 @@ def c16():
                     # no zero-value pages here: PageHeadersAtOffset(offset, n) walks until n values are covered, so a trailing
                     # empty page cannot be reached by count - a limit of the API's contract, not something to judge
                     col["pages"] = [[x for x in pg if x > 0] for pg in col["pages"]]
+                fc["reversechunks"] = fi % 3 == 1      # chunks stored in reverse schema order (offsets in the footer say where)
                 p.cases.append({"page": 1000, "codec": "snappy", "poff": ck.rng.randrange(16), "ops": [], "foreign": fc, "intro": True})
                 ck.add("evaluations")
                 ck.add("foreign_files")
@@ -1564,6 +1574,16 @@ def c13():
                 ck.add("evaluations")
                 ck.add("failing_writer_schedules")
                 distinct.add((p.key, "failat", k, vk, len(sch)))
+        # a reader whose source fails once in the middle of a page (every codec, several positions), next to healthy readers
+        for fi, k in enumerate([-j for j in range(2, 12)] + ck.rng.sample(range(10, 600), 4 if q else 20)):   # negative: the j-th page-body read
+            codec = CODECS[1 + fi % 2] if fi % 4 else CODECS[0]
+            failing = dict(inst(p, cyc, "r", codec, 2, 5), failat=k)
+            victim = inst(p, cyc, "r", codec, 3, 5)
+            for sch in ([[1, 99999], [2, 99999]], [[2, 120], [1, 99999], [2, 99999]]):
+                p.cases.append({"page": 2, "codec": "snappy", "poff": 0, "ops": [], "sched": {"insts": [failing, victim], "schedule": sch, "prior": "clean"}})
+                ck.add("evaluations")
+                ck.add("failing_reader_schedules")
+                distinct.add((p.key, "rfailat", k, codec, len(sch)))
         for si, sch in enumerate(scheds3[:: max(1, len(scheds3) // 300)] if scheds3 else []):
             insts = [inst(p, cyc, "w", CODECS[(si + k) % 3], 2, 4) for k in range(3)]
             p.cases.append({"page": 2, "codec": "snappy", "poff": 0, "ops": [], "sched": {"insts": insts, "schedule": sch, "prior": "dirty"}})
@@ -1574,7 +1594,8 @@ def c13():
                       "of the real generated writer/reader on separate goroutines behind blocking sink/source gates under GOMAXPROCS(1), with clean and "
                       "deliberately dirtied buffer pools; every sink call of every instance is compared with the same call of its solo run; non-trivial = at "
                       "least one context switch; plus schedules in which one writer's destination fails from its k-th call on (k = 1..11 and seeded larger k) "
-                      "before / between / interleaved with a healthy writer or reader; plus a free-running parallel stress under the race detector" % (3 if q else 4))
+                      "before / between / interleaved with a healthy writer or reader, and schedules in which one reader's source fails once in the middle of a page "
+                      "next to a healthy reader; plus a free-running parallel stress under the race detector" % (3 if q else 4))
     ck.cov["exhaustive"] = bool(q and len(scheds2) <= 400)
     # reference outputs: every instance alone, in a separate fresh process per program (nothing but earlier solo runs of the
     # same program has happened there); the replay process below is compared with these, so that state left behind by
@@ -1792,6 +1813,90 @@ OTHER_SRC = "type Other struct {\n\tZ int64\n\tW *string\n\tq []int32\n}\n"
 
 
 MIXIN_PAIRS = {
+    # a long chain of embedded structs below several (required) nested groups: nine resolution hops, four schema levels
+    "DeepChain": ("""package main
+
+type Desk struct {
+	Label string
+	A1    int64
+	A2    *int64
+	A3    bool
+	A4    *string
+	Rev   int32
+	Tag   *string
+	Last  float64
+}
+
+type Room struct {
+	No   int32
+	Desk Desk
+}
+
+type Floor struct {
+	Room Room
+}
+
+type Site struct {
+	Floor Floor
+	Name  string
+}
+
+type Rec struct {
+	ID   int64
+	Home Site
+}
+""", """package main
+
+type E5 struct {
+	Rev int32
+	Tag *string
+}
+
+type E4 struct {
+	A4 *string
+	E5
+}
+
+type E3 struct {
+	A3 bool
+	E4
+}
+
+type E2 struct {
+	A2 *int64
+	E3
+}
+
+type E1 struct {
+	A1 int64
+	E2
+}
+
+type Desk struct {
+	Label string
+	E1
+	Last float64
+}
+
+type Room struct {
+	No   int32
+	Desk Desk
+}
+
+type Floor struct {
+	Room Room
+}
+
+type Site struct {
+	Floor Floor
+	Name  string
+}
+
+type Rec struct {
+	ID   int64
+	Home Site
+}
+"""),
     # the mixin in the root and in a repeated nested struct (not in first position there)
     "RootAndRepeated": ("""package main
 
